@@ -245,12 +245,13 @@ def r19_5_7(ctx: Ctx):
     gq, lq = queue_fields(ctx)
     sd, dual = ctx.ix.cls('SearchData'), ctx.ix.cls('SearchDataDualQueue')
     q = ctx.ix.cls('CharacteristicsQueue')
-    ex = ctx.explorer(unroll=2)
     want_key = {gq: 'globalR', lq: 'localR'}
     n = 0
     for cls in (sd, dual):
+        # the operation as it runs on a receiver of this class (own, inherited, or through overridden hooks)
+        ex = ctx.explorer(unroll=2, self_cls=cls)
         for nm in ('InsertDataItem', 'RefillQueue'):
-            m = cls.methods.get(nm)
+            m = cls.lookup(nm)
             if m is None:
                 continue
             for p in C.normal_paths(ex.explore(m)):
@@ -301,7 +302,7 @@ def r19_5_7(ctx: Ctx):
                           'Insert(key, item) does not reach DEPQ.insert(item, key)', key=ctx.key_for(rid, insf, ev.node))
     gb = q.lookup('GetBestItem')
     for p in C.normal_paths(ctx.explorer().explore(gb)):
-        ce = C.call_event_of_result(p, p.value)
+        ce = C.pop_event_of(p, p.value)
         ctx.check(ce is not None and ce.d['name'] == 'popfirst', rid, gb.short, gb.loc(),
                   'GetBestItem = DEPQ.popfirst() (highest priority)',
                   'GetBestItem does not return DEPQ.popfirst() (the highest-priority entry)',
@@ -310,10 +311,10 @@ def r19_5_7(ctx: Ctx):
     rid7 = 'R19.7'
     n7 = 0
     for cls, queues in ((sd, [gq]), (dual, [gq, lq])):
-        m = cls.methods.get('RefillQueue')
+        m = cls.lookup('RefillQueue')
         if m is None:
             continue
-        exq = ctx.explorer(unroll=2, inline=lambda f, st: f.name == 'ClearQueue')
+        exq = ctx.explorer(unroll=2, inline=lambda f, st: f.name == 'ClearQueue', self_cls=cls)
         for p in C.normal_paths(exq.explore(m)):
             n7 += 1
             evs = p.events
